@@ -1,6 +1,7 @@
 #![allow(dead_code)]
 //! edp-rs verification harness: `verif <ID> --tier quick|thorough --seed N [--replay file]`
 
+mod alloc_track;
 mod engine;
 mod gen;
 mod mutate;
@@ -9,6 +10,9 @@ mod terms;
 mod universe;
 
 use engine::{Run, Tier};
+
+#[global_allocator]
+static GLOBAL: alloc_track::Counting = alloc_track::Counting;
 
 fn usage() -> ! {
     eprintln!("usage: verif <C01..C20> [--tier quick|thorough] [--seed N] [--replay FILE]");
